@@ -11,7 +11,7 @@
 (*           image was rotated away from the lon = 0 seam                  *)
 (*   raised  TRUE iff the bound computation raised (then nothing else)     *)
 (*   mx, mn  features <<"c", j>> / <<"e", i>> / <<"p", s>> whose exact     *)
-(*           latitude the reported lat_max (lat_min) equals within 1e-9    *)
+(*           latitude the reported lat_max (lat_min) equals within 1e-8    *)
 (*   lo, hi  corners whose longitude the reported lon_min (lon_max)        *)
 (*           equals within 1e-9 (mod 2 pi)                                 *)
 (*   full    reported longitude interval is the whole circle               *)
@@ -44,7 +44,7 @@ Clauses(r) ==
     LonFull     |-> encl => r.full,
     LonWest     |-> ~encl => Ran(r.lo) \cap WestSet(f) # {},
     LonEast     |-> ~encl => Ran(r.hi) \cap EastSet(f) # {},
-    Wrap        |-> ~encl => IF r.turned THEN ~r.wrap       \* a small face turned away from the seam (BoundsScale!Turn)
+    Wrap        |-> ~encl => IF r.turned THEN (r.fam = "small" => ~r.wrap)   \* a small face turned away from the seam; a turned polar face: not judged
                              ELSE (WrapExpected(f) = "either" \/ (r.wrap <=> WrapExpected(f) = "yes")),
     EnclLatLo   |-> \A x \in Ran(r.encl) : x[1] # "lat_lo",
     EnclLatHi   |-> \A x \in Ran(r.encl) : x[1] # "lat_hi",
@@ -76,6 +76,8 @@ Sig(r) ==
     hemisphere |-> Hemisphere(f), one_hemisphere |-> Hemisphere(f) # "Straddles", encloses_pole |-> EnclosesPole(f), pole_claim |-> PoleClaim(r),
     min_only_at_bulge_starters |-> OnlyBulgeStarters(f, r.cw, AttainMin(f)),
     max_only_at_bulge_starters |-> OnlyBulgeStarters(f, r.cw, AttainMax(f)),
+    min_only_at_edge_interior |-> \A ft \in AttainMin(f) : ft[1] = "e",
+    max_only_at_edge_interior |-> \A ft \in AttainMax(f) : ft[1] = "e",
     corner_on_ref_meridian |-> CornerOnRefMeridian(f),
     ref_point |-> PointClass(f, RefPoint),
     pole_corner_lon_covered |-> IF (CornerAt(f, 1) \/ CornerAt(f, -1)) /\ ~EnclosesPole(f)
